@@ -1,0 +1,123 @@
+//go:build verif
+
+package font
+
+import "github.com/go-text/typesetting/font/opentype/tables"
+
+// Verification hooks (property C11): construct the unexported cmap implementations from
+// synthetic data so that a harness can drive Lookup / Iter / RuneRanges.
+
+// VerifSeg4 is one resolved format 4 segment; Indexes == nil selects the delta path.
+type VerifSeg4 struct {
+	Start, End, Delta uint16
+	Indexes           []uint16
+	HasIndexes        bool // distinguishes an empty, non nil index array
+}
+
+// VerifCmap4 builds a cmap4 directly from resolved segments.
+func VerifCmap4(segs []VerifSeg4) Cmap {
+	out := make(cmap4, len(segs))
+	for i, s := range segs {
+		e := cmapEntry16{start: s.Start, end: s.End, delta: s.Delta}
+		if s.HasIndexes {
+			e.indexes = make([]tables.GlyphID, len(s.Indexes))
+			for j, g := range s.Indexes {
+				e.indexes[j] = tables.GlyphID(g)
+			}
+		}
+		out[i] = e
+	}
+	return out
+}
+
+// VerifNewCmap4 runs newCmap4 on raw format 4 arrays and returns the resolved segments.
+func VerifNewCmap4(endCode, startCode, idDelta, idRangeOffsets []uint16, glyphIDArray []byte) (Cmap, []VerifSeg4, error) {
+	cm, err := newCmap4(tables.CmapSubtable4{
+		EndCode: endCode, StartCode: startCode, IdDelta: idDelta, IdRangeOffsets: idRangeOffsets, GlyphIDArray: glyphIDArray,
+	})
+	if err != nil {
+		return nil, nil, err
+	}
+	segs := make([]VerifSeg4, len(cm))
+	for i, e := range cm {
+		segs[i] = VerifSeg4{Start: e.start, End: e.end, Delta: e.delta, HasIndexes: e.indexes != nil}
+		for _, g := range e.indexes {
+			segs[i].Indexes = append(segs[i].Indexes, uint16(g))
+		}
+	}
+	return cm, segs, nil
+}
+
+func verifGroups(groups [][3]uint32) []tables.SequentialMapGroup {
+	out := make([]tables.SequentialMapGroup, len(groups))
+	for i, g := range groups {
+		out[i] = tables.SequentialMapGroup{StartCharCode: g[0], EndCharCode: g[1], StartGlyphID: g[2]}
+	}
+	return out
+}
+
+// VerifCmap12 builds a cmap12 from (start, end, startGlyph) groups.
+func VerifCmap12(groups [][3]uint32) Cmap { return cmap12(verifGroups(groups)) }
+
+// VerifCmap13 builds a cmap13 from (start, end, glyph) groups.
+func VerifCmap13(groups [][3]uint32) Cmap { return cmap13(verifGroups(groups)) }
+
+// VerifCmap6or10 builds a cmap6or10; [pointer] selects the pointer form, which also
+// implements CmapRuneRanger.
+func VerifCmap6or10(firstCode rune, entries []uint16, pointer bool) Cmap {
+	cm := cmap6or10{firstCode: firstCode, entries: make([]tables.GlyphID, len(entries))}
+	for i, g := range entries {
+		cm.entries[i] = tables.GlyphID(g)
+	}
+	if pointer {
+		return &cm
+	}
+	return cm
+}
+
+// VerifCmap0 builds a cmap0 from its map.
+func VerifCmap0(m map[rune]uint8) Cmap {
+	out := make(cmap0, len(m))
+	for k, v := range m {
+		out[k] = v
+	}
+	return out
+}
+
+// VerifRemap wraps [cm] with one of the legacy remappers: 0 symbol, 1 simplified arabic, 2 traditional arabic.
+func VerifRemap(kind int, cm Cmap) Cmap {
+	switch kind {
+	case 0:
+		return remaperSymbol{cm}
+	case 1:
+		return remaperPUASimp{cm}
+	default:
+		return remaperPUATrad{cm}
+	}
+}
+
+// VerifCmapKind names the concrete type behind a Cmap.
+func VerifCmapKind(cm Cmap) string {
+	switch cm.(type) {
+	case cmap0:
+		return "cmap0"
+	case cmap4:
+		return "cmap4"
+	case cmap6or10, *cmap6or10:
+		return "cmap6or10"
+	case cmap12:
+		return "cmap12"
+	case cmap13:
+		return "cmap13"
+	case remaperSymbol:
+		return "remaperSymbol"
+	case remaperPUASimp:
+		return "remaperPUASimp"
+	case remaperPUATrad:
+		return "remaperPUATrad"
+	}
+	return "other"
+}
+
+// VerifArabicPUAMaps exposes the legacy arabic PUA tables.
+func VerifArabicPUAMaps(r rune) (simp, trad rune) { return arabicPUASimpMap(r), arabicPUATradMap(r) }
